@@ -330,6 +330,17 @@ func Yield() {
 	s.Point("stmt")
 }
 
+// IsControl reports whether a recovered panic value belongs to the scheduler or the explorer (an abort
+// of the execution, a harness error) rather than to the code under test. A harness that recovers panics
+// of the code under test — the way net/http's server does for a request — must re-panic these.
+func IsControl(r interface{}) bool {
+	if _, ok := r.(abortSignal); ok {
+		return true
+	}
+	_, ok := r.(explore.HarnessError)
+	return ok
+}
+
 // YieldUnlessMap is what the rewriter inserts instead of Yield inside the body of a `range` loop over
 // an expression whose type it cannot see: the iteration order of a map is not under the scheduler's
 // control, so the number of scheduling points passed inside such a loop would differ from one run of
